@@ -31,3 +31,7 @@ def nontrivial(case, model_out):
 
 # fids whose cases apply hint overrides addressed by (generator kind, occurrence) - see runner.default_judge
 OVERRIDE_FIDS = {"102"}
+
+from . import leafcommon as _lc
+
+judge = _lc.judge_for("C01")
